@@ -4,6 +4,7 @@ from tools.props import c07
 
 LEVEL = "proof"
 JOBS = 16
+RETRY_TIMING = True
 CORRESPONDENCE = c07.CORRESPONDENCE
 RULE = ("sched: one or two shutdown calls (threads / tasks x0, x1) inserted at every position of every order of the critical sections of "
         "1..2 senders x 1..2 sends and of 3 senders x 1 send (sampled), with 0..3 connections parked beforehand, maintenance passes before, "
@@ -38,7 +39,7 @@ def gen(tier, rng):
         mx = rng.choice([1, 2, 3])
         pre = rng.choice([0, 1, 2, 3])
         extra = ["x0"] + (["x1"] if rng.random() < 0.4 else []) + ["m"] * rng.choice([0, 1, 2, 3])
-        faults = sg.random_faults(rng, 8, 0.3) if rng.random() < 0.3 else []
+        faults = sg.random_faults(rng, 8, 0.3, kind) if rng.random() < 0.3 else []
         sched = sg.random_schedule(rng, kind, senders, sends, extra)
         if rng.random() < 0.6:
             sched = sg.prefill(pre) + sched
@@ -50,6 +51,11 @@ def gen(tier, rng):
             cases.append(sg.line(kind, 3, pre, 60000, 1, 1, [], sg.prefill(pre) + ["m", "s0"] + ret))
             cases.append(sg.line(kind, 3, pre, 60000, 0, 0, [], sg.prefill(pre)))
     return cases
+
+
+def timing_dependent(case):
+    # real threads against a real peer: a disagreement is re-run alone before it counts
+    return True
 
 
 def nontrivial(case):
